@@ -20,14 +20,18 @@ func validateMethods(lookup *method.Index[generatedMethod]) error {
 		}
 		return sigs[i].Target < sigs[j].Target
 	})
+	// update methods never convert an enum to an enum
+	for _, genMethod := range lookup.Update {
+		if err := validateEnumMapping(genMethod); err != nil {
+			return err
+		}
+	}
 	for _, sig := range sigs {
 		for _, entry := range lookup.Exact[sig] {
 			genMethod := entry.Item
 
-			if genMethod.Explicit && genMethod.EnumMapping != nil && (len(genMethod.EnumMapping.Map) > 0 || len(genMethod.EnumMapping.Transformers) > 0) {
-				if !genMethod.Source.Enum(&genMethod.Enum).OK || !genMethod.Target.Enum(&genMethod.Enum).OK {
-					return fmt.Errorf("Invalid enum mapping on method:\n    %s\n    %s\n\ngoverter:enum:map and goverter:enum:transform may only be set on methods converting an enum to an enum.\nSee https://goverter.jmattheis.de/guide/enum", genMethod.Location, genMethod.ID)
-				}
+			if err := validateEnumMapping(genMethod); err != nil {
+				return err
 			}
 			if genMethod.Explicit && len(genMethod.RawFieldSettings) > 0 {
 				isTargetStructPointer := genMethod.Target.Pointer && genMethod.Parameters.Target.PointerInner.Struct
@@ -36,6 +40,16 @@ func validateMethods(lookup *method.Index[generatedMethod]) error {
 				}
 			}
 		}
+	}
+	return nil
+}
+
+func validateEnumMapping(genMethod *generatedMethod) error {
+	if !genMethod.Explicit || genMethod.EnumMapping == nil || (len(genMethod.EnumMapping.Map) == 0 && len(genMethod.EnumMapping.Transformers) == 0) {
+		return nil
+	}
+	if genMethod.UpdateTarget || !genMethod.Source.Enum(&genMethod.Enum).OK || !genMethod.Target.Enum(&genMethod.Enum).OK {
+		return fmt.Errorf("Invalid enum mapping on method:\n    %s\n    %s\n\ngoverter:enum:map and goverter:enum:transform may only be set on methods converting an enum to an enum.\nSee https://goverter.jmattheis.de/guide/enum", genMethod.Location, genMethod.ID)
 	}
 	return nil
 }
